@@ -1099,8 +1099,8 @@ func (g *gen) objLit(d int) string {
 		name := g.dataProp0()
 		val := func() string {
 			v := g.w(g.expr(g.primKind(), d-1), pAssign)
-			if v == name && !g.known {
-				return "(" + v + ")" // K38: {a:a} becomes {a} for every Version
+			if !g.known && g.level < 2015 && v != "" && isIdentStart(v[0]) && !strings.ContainsAny(v, " .([+-*/\n") && !jsKeywords[v] {
+				return "(" + v + ")" // K38: {a:a} (also after renaming) becomes {a} for every Version
 			}
 			return v
 		}
@@ -1130,7 +1130,7 @@ func (g *gen) objLit(d int) string {
 				parts = append(parts, g.methodText(g.fresh("m"), d, false, false))
 				continue
 			}
-			parts = append(parts, name+":"+g.funcExprText(d, ""))
+			parts = append(parts, g.fresh("m")+":"+g.funcExprText(d, ""))
 		case 9:
 			parts = append(parts, "get "+name+"(){"+g.accessorBody(d)+"}")
 		case 10:
